@@ -56,7 +56,7 @@ def _image_cuts(rng, ext, size, limit):
 def generate(rng, tier, index):
     exhaustive = tier == "thorough" and index % 40 == 0
     if exhaustive:
-        wp = world.gen_world_plan(rng, max_images=2, max_lines=3, max_pixels=3)
+        wp = world.gen_world_plan(rng, max_images=2, max_lines=3, max_pixels=3, large=0.0)
         for im in wp["images"]:
             im["lines"] = rng.randint(1, 3)
             im["pixels"] = rng.randint(1, 3)
@@ -229,6 +229,8 @@ def execute(plan):
             bump("outcome:" + outcome)
             # restore the pristine file
             w.write_file(f, original)
+            if outcome == "budget":
+                break       # one hang per run is enough (each costs up to the wall limit)
         return common.outcome(SIM, violations, keys, stats, {"evaluations": len(plan["faults"])})
     finally:
         w.destroy()
